@@ -358,7 +358,43 @@ func registerOS(e *Engine) {
 		c.St.Assume(intCmp("<=", StrLenInt(r), IntC(12))) // stated bound on expanded values
 		return c.Outcomes(c.sol2(), []Outcome{{Cond: Not(has), Ret: s}, {Cond: has, Ret: r, Eff: func(st *State) { st.NoReplay = true }}})
 	}
-	e.Intr["os.Environ"] = func(c *Call) []*State { return c.Return(Slice{}) }
+	// os.Environ: the variables set by the program itself (the inherited environment is
+	// outside the model), a new name appended, an existing one replaced in place, as the
+	// runtime does. Exact for constant names only.
+	e.Intr["os.Environ"] = func(c *Call) []*State {
+		var keys []string
+		vals := map[string]*Term{}
+		for _, ev := range c.St.World.Env {
+			if !ev.Key.Const {
+				panic(unsupported("os.Environ after Setenv/Unsetenv with a symbolic variable name"))
+			}
+			k := ev.Key.S
+			if !ev.Set {
+				if _, ok := vals[k]; ok {
+					delete(vals, k)
+					for i, x := range keys {
+						if x == k {
+							keys = append(keys[:i:i], keys[i+1:]...)
+							break
+						}
+					}
+				}
+				continue
+			}
+			if _, ok := vals[k]; !ok {
+				keys = append(keys, k)
+			}
+			vals[k] = ev.Val
+		}
+		out := make([]Value, 0, len(keys))
+		for _, k := range keys {
+			out = append(out, StrConcat(StrC(k+"="), vals[k]))
+		}
+		if len(out) == 0 {
+			return c.Return(Slice{})
+		}
+		return c.Return(e.newSlice(c.St, out))
+	}
 	e.Intr["os.Getpid"] = func(c *Call) []*State { return c.Return(BVC(4242, 64)) }
 	e.Intr["os.Getwd"] = func(c *Call) []*State { return c.Return(Tuple{StrC("/cwd"), Iface{}}) }
 	e.Intr["os.UserHomeDir"] = func(c *Call) []*State { return c.Return(Tuple{StrC("/home/u"), Iface{}}) }
